@@ -159,9 +159,16 @@ SpellUse(cfg, u) ==
         \cup {<<k \o v>> : k \in {x \in shortK : arg.vm = "req" /\ Len(v) > 0}}
         \cup {<<k \o <<EqSign>> \o v>> : k \in longK}
 \* all concatenations of one form per use, in line order
+\* a positional value directly behind a multi-value argument (it would be one more of its values) or behind an
+\* optional-mode argument used without value (it would be its value) has no legal spelling at that place
+PosPlaceOK(cfg, line, k) ==
+   ~cfg.args[line[k].a].pos \/ k = 1
+   \/ LET prev == cfg.args[line[k-1].a] IN
+      ~prev.multi /\ ~(prev.vm = "opt" /\ Len(line[k-1].vals) = 0)
 RECURSIVE SpellFrom(_, _, _)
 SpellFrom(cfg, line, k) ==
    IF k > Len(line) THEN {<<>>}
+   ELSE IF ~PosPlaceOK(cfg, line, k) THEN {}
    ELSE {h \o t : h \in SpellUse(cfg, line[k]), t \in SpellFrom(cfg, line, k + 1)}
 \* grouping of adjacent short keys behind one dash: "-a" "-b" -> "-ab", "-a" "-n5"/"-n" -> "-an5"/"-an"
 IsShortFlagWord(cfg, w) == Len(w) >= 2 /\ w[1] = Dash /\ w[2] # Dash
